@@ -124,7 +124,9 @@ class Fragments(Harness):
                         return 0
                     e = script.delay(0, "e")
                     obs.pieces.update({"p2": p2, "e": e})
-                    loop.call_later(d + e, lambda: (not sock.closed) and sock.rx.append(p2))
+                    # the second piece is sent after the first one has been delivered (also when e == 0: timers with
+                    # equal deadlines are not ordered by the loop's heap; datagram *reordering* is not C07's subject)
+                    loop.call_later(d, lambda: loop.call_later(e, lambda: (not sock.closed) and sock.rx.append(p2)))
                 elif n == 1 and self.variant == "stale_tail":
                     # the tail of the first answer arrives as the only datagram for the retransmission
                     tail = obs.pieces["good"][obs.pieces["s"]:]
@@ -225,8 +227,13 @@ class Fragments(Harness):
                     # the delivered bytes (any such frame is indistinguishable from a genuine answer)
                     glued = SBytes.of(p1) + SBytes.of(P["p2"])
                     eq = _bytes_eq(raw, glued)
-                    if eq is not True:
-                        check(eq, "a successful result is not the concatenation of the two pieces")
+                    # (a second piece that is accepted *on its own* for a later transmission is not built from the
+                    # fragment: whether such a datagram is a well-formed answer is C01's subject)
+                    alone = _bytes_eq(raw, P["p2"])
+                    if eq is not True and alone is not True:
+                        conds = [c for c in (eq, alone) if c is not False]
+                        check(z3.Or([_z3b(c) for c in conds]) if conds else False,
+                              "a successful result is not the concatenation of the two pieces")
                     if self.framing == "aa55":
                         items = [to_z3(b) for b in SBytes.of(raw).items]
                         check(z3.Sum(items[:-2]) == items[-2] * 256 + items[-1], "a result with a wrong checksum was delivered")
